@@ -18,7 +18,8 @@ Section W.
   Variable V : Type.
   Variable lat : nat.
 
-  Inductive mop := MSend (i : nat) (x : V) | MClose (i : nat) | MWait (i : nat) | MRet.
+  Inductive mop := MSend (i : nat) (x : V) | MClose (i : nat) | MWait (i : nat) | MRet
+    | MAwait (i : nat).   (* after a send on an unbuffered channel: wait until the item has been taken *)
   Inductive wst := WLoop | WBusy (v : V) (n : nat) | WClose | WHalt.
 
   Record conf := mkC {
@@ -51,7 +52,9 @@ Section W.
   | s_write c i x : w c i = WBusy x 0 ->
       step c (mkC (ops c) (updf (w c) i WLoop) (buf c) (closed c) (done c) (updf (wrote c) i (wrote c i ++ [x])) (returned c) (waited c))
   | s_done c i : w c i = WClose ->
-      step c (mkC (ops c) (updf (w c) i WHalt) (buf c) (closed c) (updf (done c) i true) (wrote c) (returned c) (waited c)).
+      step c (mkC (ops c) (updf (w c) i WHalt) (buf c) (closed c) (updf (done c) i true) (wrote c) (returned c) (waited c))
+  | s_await c i r : ops c = MAwait i :: r -> buf c i = [] ->
+      step c (mkC r (w c) (buf c) (closed c) (done c) (wrote c) (returned c) (waited c)).
 
   Inductive reach (c0 : conf) : conf -> Prop :=
   | r_refl : reach c0 c0
@@ -83,7 +86,7 @@ Section W.
 
   Lemma sends_cons_other i o l : (forall x, o <> MSend i x) -> sends i (o :: l) = sends i l.
   Proof.
-    intros H. unfold sends. cbn [flat_map]. destruct o as [j x| | |]; try reflexivity.
+    intros H. unfold sends. cbn [flat_map]. destruct o as [j x| | | |]; try reflexivity.
     destruct (Nat.eqb_spec j i) as [->|_]; [exfalso; exact (H x eq_refl)|reflexivity].
   Qed.
   Lemma sends_cons_same i x l : sends i (MSend i x :: l) = x :: sends i l.
@@ -102,7 +105,7 @@ Section W.
 
   Lemma inv_step prog c c' : Inv prog c -> step c c' -> Inv prog c'.
   Proof.
-    intros I S. destruct S as [c i x r Ho Hc Hl|c i r Ho Hc|c i r Ho Hd|c r Ho|c i x b Hw Hb|c i Hw Hb Hc|c i x n Hw|c i x Hw|c i Hw].
+    intros I S. destruct S as [c i x r Ho Hc Hl|c i r Ho Hc|c i r Ho Hd|c r Ho|c i x b Hw Hb|c i Hw Hb Hc|c i x n Hw|c i x Hw|c i Hw|c i r Ho Hbe].
     - (* send *)
       pose proof (i_nsac prog c I) as N. rewrite Ho in N.
       constructor; cbn [ops w buf closed done wrote returned waited].
@@ -219,6 +222,20 @@ Section W.
       + exact (i_nsac prog c I).
       + exact (i_wbr prog c I).
       + exact (i_ret prog c I).
+    - (* the item sent on an unbuffered channel has been taken *)
+      pose proof (i_nsac prog c I) as N. rewrite Ho in N.
+      constructor; cbn [ops w buf closed done wrote returned waited].
+      + intros k. pose proof (i_data prog c I k) as D. rewrite Ho in D.
+        rewrite sends_cons_other in D by (intros y E; discriminate). exact D.
+      + intros k Hk. pose proof (i_closed prog c I k Hk) as D. rewrite Ho in D.
+        rewrite sends_cons_other in D by (intros y E; discriminate). exact D.
+      + exact (i_fin prog c I).
+      + exact (i_done prog c I).
+      + exact (i_waited prog c I).
+      + exact (nsac_tail _ _ N).
+      + intros a b E k Hk. pose proof (i_wbr prog c I (MAwait i :: a) b) as Wb. rewrite Ho, E in Wb.
+        destruct (Wb eq_refl k Hk) as [A|[A|A]]; [left; exact A|discriminate|right; exact A].
+      + exact (i_ret prog c I).
   Qed.
 
   Theorem inv_reach prog c : no_send_after_close prog -> waits_before_return prog prog (fun _ => false) ->
@@ -264,7 +281,7 @@ Section W.
 
   Lemma inv2_step c c' : Inv2 c -> step c c' -> Inv2 c'.
   Proof.
-    intros I S. destruct S as [c i x r Ho Hc Hl|c i r Ho Hc|c i r Ho Hd|c r Ho|c i x b Hw Hb|c i Hw Hb Hc|c i x n Hw|c i x Hw|c i Hw];
+    intros I S. destruct S as [c i x r Ho Hc Hl|c i r Ho Hc|c i r Ho Hd|c r Ho|c i x b Hw Hb|c i Hw Hb Hc|c i x n Hw|c i x Hw|c i Hw|c i r Ho Hbe];
       pose proof (j_once c I) as O1; pose proof (j_wac c I) as W1.
     - rewrite Ho in O1, W1. constructor; cbn [ops w closed done].
       + exact (once_tail _ _ O1).
@@ -301,6 +318,11 @@ Section W.
       intros k Hk. thr k i; [discriminate|exact (j_halt c I k Hk)].
     - constructor; cbn [ops w closed done]; [exact O1|exact (j_closed c I)|exact W1|].
       intros k Hk. thr k i; [reflexivity|]. pose proof (j_halt c I k Hk) as A. exact A.
+    - rewrite Ho in O1, W1. constructor; cbn [ops w closed done].
+      + exact (once_tail _ _ O1).
+      + intros k Hk Hin. apply (j_closed c I k Hk). rewrite Ho. right. exact Hin.
+      + intros a b k E. destruct (W1 (MAwait i :: a) b k) as [A|[A|A]]; [rewrite E; reflexivity|left; exact A|discriminate|right; exact A].
+      + exact (j_halt c I).
   Qed.
 
   (* a configuration in which nothing can move: main has finished its program and every writer whose
@@ -318,7 +340,7 @@ Section W.
       - exfalso. exact (Hn _ (s_done c i E)).
       - left. reflexivity. }
     split.
-    - destruct (ops c) as [|o r] eqn:Ho; [reflexivity|exfalso]. destruct o as [i x|i|i|].
+    - destruct (ops c) as [|o r] eqn:Ho; [reflexivity|exfalso]. destruct o as [i x|i|i| |i].
       + assert (Hc : closed c i = false).
         { destruct (closed c i) eqn:Ec; [|reflexivity]. pose proof (i_closed prog c I i Ec) as Z.
           rewrite Ho, sends_cons_same in Z. discriminate. }
@@ -332,6 +354,10 @@ Section W.
         destruct (Hw i) as [Hh|(_ & _ & C)]; [|congruence].
         exact (Hn _ (s_wait c i r Ho (j_halt c J i Hh))).
       + exact (Hn _ (s_ret c r Ho)).
+      + (* the item is taken sooner or later: a writer that is not busy has an empty channel *)
+        destruct (Hw i) as [Hh|(_ & Hb & _)].
+        * destruct (i_fin prog c I i (or_intror Hh)) as [Hb _]. exact (Hn _ (s_await c i r Ho Hb)).
+        * exact (Hn _ (s_await c i r Ho Hb)).
     - intros i Ec. destruct (Hw i) as [Hh|(_ & _ & C)]; [|congruence]. split; [exact Hh|exact (j_halt c J i Hh)].
   Qed.
 
@@ -342,11 +368,12 @@ Section W.
   Lemma closed_when_gone prog c : reach (init prog) c -> forall i, In (MClose i) prog -> ~ In (MClose i) (ops c) -> closed c i = true.
   Proof.
     induction 1 as [|c c' _ IH S]; intros i Hin Hnot; [contradiction|].
-    destruct S as [c j x r Ho Hc Hl|c j r Ho Hc|c j r Ho Hd|c r Ho|c j x b Hw Hb|c j Hw Hb Hc|c j x n Hw|c j x Hw|c j Hw];
+    destruct S as [c j x r Ho Hc Hl|c j r Ho Hc|c j r Ho Hd|c r Ho|c j x b Hw Hb|c j Hw Hb Hc|c j x n Hw|c j x Hw|c j Hw|c j r Ho Hbe];
       cbn [ops closed] in *; try (apply IH; assumption).
     - apply IH; [exact Hin|]. rewrite Ho. intros [C|C]; [discriminate|exact (Hnot C)].
     - destruct (Nat.eq_dec i j) as [->|Hne]; [apply updf_same|]. rewrite updf_other by exact Hne.
       apply IH; [exact Hin|]. rewrite Ho. intros [C|C]; [injection C as C; congruence|exact (Hnot C)].
+    - apply IH; [exact Hin|]. rewrite Ho. intros [C|C]; [discriminate|exact (Hnot C)].
     - apply IH; [exact Hin|]. rewrite Ho. intros [C|C]; [discriminate|exact (Hnot C)].
     - apply IH; [exact Hin|]. rewrite Ho. intros [C|C]; [discriminate|exact (Hnot C)].
   Qed.
@@ -355,27 +382,28 @@ End W.
 (* ---------- the program of rtcmfilter / displayrtcm3 ---------- *)
 Section Std.
   Variable V : Type.
-  Arguments MSend {V}. Arguments MClose {V}. Arguments MWait {V}. Arguments MRet {V}.
+  Arguments MSend {V}. Arguments MClose {V}. Arguments MWait {V}. Arguments MRet {V}. Arguments MAwait {V}.
+  Variable sync : nat -> bool.    (* writer i's channel is unbuffered: after each send main waits until the item has been taken *)
 
   (* every message to writers 0..k-1 in turn; close all; wait for all; return *)
-  Definition std_prog (k : nat) (msgs : list V) : list (mop V) :=
-    flat_map (fun m => map (fun i => MSend i m) (seq 0 k)) msgs ++
-    map MClose (seq 0 k) ++ map MWait (seq 0 k) ++ [MRet].
+  Definition cell (m : V) (i : nat) : list (mop V) := MSend i m :: (if sync i then [MAwait i] else []).
+  Definition rows (k : nat) (msgs : list V) : list (mop V) := flat_map (fun m => flat_map (cell m) (seq 0 k)) msgs.
+  Definition ctl (k : nat) : list (mop V) := map MClose (seq 0 k) ++ map MWait (seq 0 k) ++ [MRet].
+  Definition std_prog (k : nat) (msgs : list V) : list (mop V) := rows k msgs ++ ctl k.
 
   Lemma sends_app i (a b : list (mop V)) : sends V i (a ++ b) = sends V i a ++ sends V i b.
   Proof. apply flat_map_app. Qed.
 
-  Lemma sends_cons_eq i j x (l : list (mop V)) :
-    sends V i (MSend j x :: l) = (if Nat.eqb j i then [x] else []) ++ sends V i l.
-  Proof. reflexivity. Qed.
+  Lemma sends_cell i m j : sends V i (cell m j) = if Nat.eqb j i then [m] else [].
+  Proof. unfold cell, sends. cbn [flat_map]. destruct (sync j); cbn [flat_map app]; rewrite ?app_nil_r; reflexivity. Qed.
 
-  Lemma sends_row i k m : sends V i (map (fun j => MSend j m) (seq 0 k)) = if i <? k then [m] else [].
+  Lemma sends_row i k m : sends V i (flat_map (cell m) (seq 0 k)) = if i <? k then [m] else [].
   Proof.
-    assert (G : forall n s, sends V i (map (fun j => MSend j m) (seq s n)) = if (s <=? i) && (i <? s + n) then [m] else []).
-    { induction n as [|n IH]; intros s; cbn [seq map].
+    assert (G : forall n s, sends V i (flat_map (cell m) (seq s n)) = if (s <=? i) && (i <? s + n) then [m] else []).
+    { induction n as [|n IH]; intros s; cbn [seq flat_map].
       - replace (i <? s + 0) with (i <? s) by (f_equal; lia).
         destruct (Nat.leb_spec s i), (Nat.ltb_spec i s); try reflexivity; lia.
-      - rewrite sends_cons_eq. rewrite IH.
+      - rewrite sends_app, sends_cell, IH.
         destruct (Nat.eqb_spec s i) as [->|Hne].
         + rewrite Nat.leb_refl. replace (i <? i + S n) with true by (symmetry; apply Nat.ltb_lt; lia).
           replace (S i <=? i) with false by (symmetry; apply Nat.leb_gt; lia). reflexivity.
@@ -384,21 +412,20 @@ Section Std.
     rewrite (G k 0). cbn [Nat.leb andb plus]. reflexivity.
   Qed.
 
-  Lemma sends_rows i k msgs :
-    sends V i (flat_map (fun m => map (fun j => MSend j m) (seq 0 k)) msgs) = if i <? k then msgs else [].
+  Lemma sends_rows i k msgs : sends V i (rows k msgs) = if i <? k then msgs else [].
   Proof.
-    induction msgs as [|m msgs IH]; [destruct (i <? k); reflexivity|].
+    unfold rows. induction msgs as [|m msgs IH]; [destruct (i <? k); reflexivity|].
     cbn [flat_map]. rewrite sends_app, sends_row, IH. destruct (i <? k); reflexivity.
   Qed.
 
   Definition is_send (o : mop V) : bool := match o with MSend _ _ => true | _ => false end.
+  Definition is_ctl (o : mop V) : bool := match o with MClose _ | MWait _ | MRet => true | _ => false end.
   Lemma sends_nosend i (l : list (mop V)) : forallb (fun o => negb (is_send o)) l = true -> sends V i l = [].
   Proof.
     induction l as [|o l IH]; intros H; [reflexivity|]. cbn [forallb] in H. apply andb_true_iff in H. destruct H as [Ho Hl].
     destruct o; try discriminate; cbn; exact (IH Hl).
   Qed.
 
-  Definition ctl (k : nat) : list (mop V) := map MClose (seq 0 k) ++ map MWait (seq 0 k) ++ [MRet].
   Lemma ctl_nosend k : forallb (fun o => negb (is_send o)) (ctl k) = true.
   Proof.
     unfold ctl. rewrite !forallb_app. repeat (apply andb_true_iff; split); try reflexivity;
@@ -406,9 +433,7 @@ Section Std.
   Qed.
 
   Lemma sends_std i k msgs : sends V i (std_prog k msgs) = if i <? k then msgs else [].
-  Proof.
-    unfold std_prog. fold (ctl k). rewrite sends_app, sends_rows, (sends_nosend i _ (ctl_nosend k)). apply app_nil_r.
-  Qed.
+  Proof. unfold std_prog. rewrite sends_app, sends_rows, (sends_nosend i _ (ctl_nosend k)). apply app_nil_r. Qed.
 
   (* a split of  S ++ T  at an operation that does not occur in S happens inside T *)
   Lemma split_in_tail (S T a b : list (mop V)) o : Forall (fun s => s <> o) S -> a ++ o :: b = S ++ T ->
@@ -421,17 +446,19 @@ Section Std.
       + cbn in E. injection E as -> E. destruct (IH a HS' E) as (c & Hc & Ha). exists c. split; [exact Hc|]. rewrite Ha. reflexivity.
   Qed.
 
-  Lemma rows_all_sends k msgs o : is_send o = false ->
-    Forall (fun s => s <> o) (flat_map (fun m => map (fun j => MSend j m) (seq 0 k)) msgs).
+  (* the rows contain sends and awaits only *)
+  Lemma rows_no_ctl k msgs o : is_ctl o = true -> Forall (fun s => s <> o) (rows k msgs).
   Proof.
-    intros Ho. apply Forall_forall. intros s Hs. apply in_flat_map in Hs. destruct Hs as (m & _ & Hs).
-    apply in_map_iff in Hs. destruct Hs as (j & <- & _). intros C. rewrite <- C in Ho. discriminate.
+    intros Ho. apply Forall_forall. intros s Hs. unfold rows in Hs. apply in_flat_map in Hs. destruct Hs as (m & _ & Hs).
+    apply in_flat_map in Hs. destruct Hs as (j & _ & Hs). unfold cell in Hs.
+    destruct Hs as [<-|Hs]; [intros C; rewrite <- C in Ho; discriminate|].
+    destruct (sync j); [destruct Hs as [<-|[]]; intros C; rewrite <- C in Ho; discriminate|destruct Hs].
   Qed.
 
   Lemma std_no_send_after_close k msgs : no_send_after_close V (std_prog k msgs).
   Proof.
-    intros a b i E. unfold std_prog in E. fold (ctl k) in E. symmetry in E.
-    destruct (split_in_tail _ _ a b (MClose i) (rows_all_sends k msgs (MClose i) eq_refl) E) as (c & Hc & _).
+    intros a b i E. unfold std_prog in E. symmetry in E.
+    destruct (split_in_tail _ _ a b (MClose i) (rows_no_ctl k msgs (MClose i) eq_refl) E) as (c & Hc & _).
     pose proof (sends_nosend i _ (ctl_nosend k)) as Z. rewrite Hc, sends_app in Z.
     apply app_eq_nil in Z. destruct Z as [_ Z]. exact Z.
   Qed.
@@ -441,8 +468,7 @@ Section Std.
     intros a b E i Hi. right.
     rewrite sends_std in Hi. destruct (Nat.ltb_spec i k) as [Hlt|]; [|congruence].
     unfold std_prog in E. symmetry in E.
-    destruct (split_in_tail _ _ a b MRet (rows_all_sends k msgs MRet eq_refl) E) as (c & Hc & Ha).
-    (* MRet is the last operation of the control part: c is everything before it *)
+    destruct (split_in_tail _ _ a b MRet (rows_no_ctl k msgs MRet eq_refl) E) as (c & Hc & Ha).
     assert (Hc2 : exists d, c = map MClose (seq 0 k) ++ d /\ (map MWait (seq 0 k) ++ [MRet] = d ++ MRet :: b)).
     { assert (F : Forall (fun s : mop V => s <> MRet) (map MClose (seq 0 k))).
       { apply Forall_forall. intros s Hs. apply in_map_iff in Hs. destruct Hs as (j & <- & _). discriminate. }
@@ -457,11 +483,10 @@ Section Std.
 
   (* the same program with the wait left out when the source does not wait (fact regenerated from the code) *)
   Definition std_prog_opt (waits : bool) (k : nat) (msgs : list V) : list (mop V) :=
-    if waits then std_prog k msgs
-    else flat_map (fun m => map (fun i => MSend i m) (seq 0 k)) msgs ++ map MClose (seq 0 k) ++ [MRet].
+    if waits then std_prog k msgs else rows k msgs ++ map MClose (seq 0 k) ++ [MRet].
 
-  (* C11 for k writers: whatever the capacities, latencies and schedule, when main has returned every
-     writer 0..k-1 has written exactly the messages, in order *)
+  (* C11 for k writers: whatever the capacities, latencies and schedule, and whichever channels are unbuffered,
+     when main has returned every writer 0..k-1 has written exactly the messages, in order *)
   Theorem std_flushed_at_return lat cap k msgs c :
     reach V lat cap (init V (std_prog k msgs)) c -> returned V c = true ->
     forall i, i < k -> wrote V c i = msgs.
@@ -470,6 +495,7 @@ Section Std.
     rewrite (flushed_at_return V lat cap _ c (std_no_send_after_close k msgs) (std_waits_before_return k msgs) Hr Hret i).
     rewrite sends_std. destruct (Nat.ltb_spec i k); [reflexivity|lia].
   Qed.
+
   (* the writers whose channels a program closes, in order *)
   Definition closes (l : list (mop V)) : list nat :=
     flat_map (fun o => match o with MClose i => [i] | _ => [] end) l.
@@ -492,9 +518,10 @@ Section Std.
 
   Lemma std_close_once k msgs : close_once V (std_prog k msgs).
   Proof.
-    apply nodup_close_once. unfold std_prog. rewrite !closes_app.
-    rewrite (closes_nonclose (flat_map _ msgs)).
-    2:{ intros o Ho. apply in_flat_map in Ho. destruct Ho as (m & _ & Ho). apply in_map_iff in Ho. destruct Ho as (j & <- & _). exact I. }
+    apply nodup_close_once. unfold std_prog, ctl. rewrite !closes_app.
+    rewrite (closes_nonclose (rows k msgs)).
+    2:{ intros o Ho. pose proof (rows_no_ctl k msgs o) as F. destruct o; try exact I.
+        rewrite Forall_forall in F. exact (F eq_refl _ Ho eq_refl). }
     rewrite (closes_nonclose (map MWait (seq 0 k))).
     2:{ intros o Ho. apply in_map_iff in Ho. destruct Ho as (j & <- & _). exact I. }
     cbn [closes flat_map app]. rewrite app_nil_r.
@@ -506,7 +533,7 @@ Section Std.
   Lemma std_waits_after_close k msgs : waits_after_close V (std_prog k msgs) (fun _ => false).
   Proof.
     intros a b i E. right. unfold std_prog in E. symmetry in E.
-    destruct (split_in_tail _ _ a b (MWait i) (rows_all_sends k msgs (MWait i) eq_refl) E) as (c & Hc & Ha).
+    destruct (split_in_tail _ _ a b (MWait i) (rows_no_ctl k msgs (MWait i) eq_refl) E) as (c & Hc & Ha).
     assert (F : Forall (fun s : mop V => s <> MWait i) (map MClose (seq 0 k))).
     { apply Forall_forall. intros s Hs. apply in_map_iff in Hs. destruct Hs as (j & <- & _). discriminate. }
     destruct (split_in_tail _ _ c b (MWait i) F (eq_sym Hc)) as (d & Hd & Hcd).
@@ -530,7 +557,7 @@ Section Std.
     split; [exact Ho|]. intros i Hi.
     assert (Hcl : closed V c i = true).
     { apply (closed_when_gone V lat cap (std_prog k msgs) c Hr i).
-      - unfold std_prog. apply in_or_app. right. apply in_or_app. left. apply in_map. apply in_seq. lia.
+      - unfold std_prog, ctl. apply in_or_app. right. apply in_or_app. left. apply in_map. apply in_seq. lia.
       - rewrite Ho. intros []. }
     destruct (Hc i Hcl) as [Hh _]. split; [exact Hh|].
     pose proof (i_data V _ c I i) as D.
